@@ -7,7 +7,12 @@ import json, os, subprocess, sys, glob
 
 here = os.path.dirname(os.path.dirname(os.path.abspath(__file__)))
 rows = []
+only = sys.argv[1] if len(sys.argv) > 1 else ""  # e.g. "M9-" : re-run these only and merge into RESULTS.json
+if only and os.path.exists(os.path.join(here, "seeded", "RESULTS.json")):
+    rows = [r for r in json.load(open(os.path.join(here, "seeded", "RESULTS.json"))) if not r["mutant"].startswith(only)]
 for d in sorted(glob.glob(os.path.join(here, "seeded", "M*"))):
+    if only and not os.path.basename(d).startswith(only):
+        continue
     meta = json.load(open(os.path.join(d, "meta.json")))
     if str(meta.get("status", "")).startswith(("rejected", "known-miss")):
         print(meta["id"], "skipped (%s)" % meta["status"])
@@ -25,6 +30,7 @@ for d in sorted(glob.glob(os.path.join(here, "seeded", "M*"))):
                  "checks_run": sorted(r["checks"]), "caught_by": caught, "signatures": {c: v["signatures"][:3] for c, v in r["checks"].items()}})
     print("%-8s demo %s/%s  caught by %s" % (meta["id"], r.get("demo_with_change"), r.get("demo_on_repo"), ",".join(caught) or "NONE"))
     sys.stdout.flush()
+rows.sort(key=lambda r: r["mutant"])
 json.dump(rows, open(os.path.join(here, "seeded", "RESULTS.json"), "w"), indent=1)
 missed = [r["mutant"] for r in rows if not r.get("caught_by")]
 print("caught %d of %d; missed: %s" % (len(rows) - len(missed), len(rows), missed))
